@@ -309,7 +309,7 @@ class PhysicsOrbit(OrbitBase):
 
         """
 
-        super().set_stellar_distance(world_signature, eccentricity)
+        super().set_stellar_eccentricity(world_signature, eccentricity)
 
         if self.star_host:
             # We do not need to recalculate insolation for all the world_types, only the one provided.
